@@ -72,10 +72,18 @@ Definition dec_res2 (s : sexp) : option (option typedef) :=
 Definition nth_hwc (t : topology) (k : Z) : option hwc :=
   if (0 <=? k) && (k <? zlen (tpHWc t)) then Some (znth zero_hwc (tpHWc t) k) else None.
 
+Definition is_panic (s : sexp) : bool := sym_eqb s "panic".
+
 Definition judge_query (t : topology) (q : sexp) : verdict :=
   match q with
   | L (S n :: args) =>
     let is k := bytes_eqb n (str k) in
+    (* a look-up that panics: only GetHWCTypeDefinition with a negative slice position may
+       (outside the property: it takes a position, not an id) *)
+    if existsb is_panic args &&
+       negb (is "t2idx" && match args with I k :: _ => k <? 0 | _ => false end)
+    then VSpec "c13-panic" q
+    else
     match args with
     | [L ids; I mut] =>
       match get_ints ids with
